@@ -262,19 +262,7 @@ def run(chk, build):
         chk.count(key=("incremental", repr(rounds), repr(policy)), sample=info if i == 0 else None)
         try:
             with common.time_limit(20):
-                G = MetadataGenerator(impl.make_registry(RN3))
-                reg = ModelRegistry(*impl.make_cmp(policy))
-                why = None
-                for j, s in enumerate(rounds):
-                    reg.process_meta_data(G.generate(*copy.deepcopy(s)), f"Root{j}")
-                    pre = {m.index: list(m.type.keys()) for m in reg.models}
-                    reps = reg.merge_models(G)
-                    pol = policy or [("percent", 0.7), ("number", 10)]
-                    want = components(sorted(pre), lambda a, b: spec_cmp(pol, pre[a], pre[b]))
-                    got = sorted(sorted(x.index for x in grp) for _, grp in reps)
-                    if want != got:
-                        why = f"call {j + 1} of merge_models: groups {got} differ from the connected components {want} of the models registered before it"
-                        break
+                why = incremental_case(rounds, policy)
         except TimeoutError:
             continue
         except ZeroDivisionError:
@@ -301,9 +289,30 @@ def finish(chk):
                            "distinct = distinct (graph | comparator answer | replacement list + key sets)")
 
 
+def incremental_case(rounds, policy):
+    """merge_models after every round of new data on ONE registry -> failure description or None"""
+    from json_to_models.generator import MetadataGenerator
+    from json_to_models.registry import ModelRegistry
+    G = MetadataGenerator(impl.make_registry(RN3))
+    reg = ModelRegistry(*impl.make_cmp(policy))
+    for j, s in enumerate(rounds):
+        reg.process_meta_data(G.generate(*copy.deepcopy(s)), f"Root{j}")
+        pre = {m.index: list(m.type.keys()) for m in reg.models}
+        reps = reg.merge_models(G)
+        pol = policy or [("percent", 0.7), ("number", 10)]
+        want = components(sorted(pre), lambda a, b: spec_cmp(pol, pre[a], pre[b]))
+        got = sorted(sorted(x.index for x in grp) for _, grp in reps)
+        if want != got:
+            return f"call {j + 1} of merge_models: groups {got} differ from the connected components {want} of the models registered before it"
+    return None
+
+
 def replay(chk, path):
     r = base.load_replay(path)
-    if "samples" in r:
+    if "rounds" in r:
+        policy = [tuple(p) for p in r["policy"]] if r.get("policy") else None
+        why = incremental_case(r["rounds"], policy)
+    elif "samples" in r:
         table = {frozenset(x) for x in r["table"]} if "table" in r else None
         policy = [tuple(p) for p in r["policy"]] if r.get("policy") else None
         res = one_registry_case(r["samples"], policy, table)
